@@ -337,9 +337,11 @@ func (g *verifGen) stmtWith(tmpl, depth int) string {
 // the front end: syntax tree -> builder operations
 
 type verifFE struct {
-	pkg    *Package
-	cb     *CodeBuilder
-	labels map[string]*Label
+	pkg        *Package
+	cb         *CodeBuilder
+	labels     map[string]*Label
+	imports    map[string]string // source alias -> import path (nil: no imports)
+	importRefs map[string]PkgRef
 }
 
 func (fe *verifFE) lookup(name string) types.Object {
@@ -371,6 +373,14 @@ func (fe *verifFE) isType(e ast.Expr) bool {
 		return fe.isType(v.X)
 	case *ast.StarExpr:
 		return fe.isType(v.X)
+	case *ast.SelectorExpr:
+		if id, ok := v.X.(*ast.Ident); ok {
+			if ref, isPkg := fe.importRef(id.Name); isPkg {
+				_, isT := ref.Ref(v.Sel.Name).(*types.TypeName)
+				return isT
+			}
+		}
+		return false
 	case *ast.ArrayType, *ast.MapType, *ast.ChanType, *ast.FuncType, *ast.StructType, *ast.InterfaceType:
 		return true
 	}
@@ -450,6 +460,12 @@ func (fe *verifFE) expr(e ast.Expr, two bool) {
 		}
 		cb.Slice(v.Slice3)
 	case *ast.SelectorExpr:
+		if id, ok := v.X.(*ast.Ident); ok {
+			if ref, isPkg := fe.importRef(id.Name); isPkg {
+				cb.Val(ref.Ref(v.Sel.Name))
+				return
+			}
+		}
 		if fe.isType(v.X) { // method expression
 			cb.Typ(fe.typ(v.X))
 		} else {
@@ -573,6 +589,12 @@ func (fe *verifFE) lhs(e ast.Expr) {
 		fe.expr(v.Index, false)
 		cb.IndexRef(1)
 	case *ast.SelectorExpr:
+		if id, ok := v.X.(*ast.Ident); ok {
+			if ref, isPkg := fe.importRef(id.Name); isPkg {
+				cb.VarRef(ref.Ref(v.Sel.Name))
+				return
+			}
+		}
 		fe.expr(v.X, false)
 		cb.MemberRef(v.Sel.Name)
 	case *ast.StarExpr:
@@ -937,15 +959,20 @@ func VerifH_C02_roundtrip() {
 	pkg := NewPackage("", "p", conf)
 	fe := &verifFE{pkg: pkg, labels: map[string]*Label{}}
 	var out bytes.Buffer
+	balanced := false
 	class, perr := vp.TryVal(func() {
 		fe.cb = pkg.NewFunc(nil, "body2", nil, nil, false).BodyStart(pkg)
 		fe.declareLabels(orig.Body.List)
 		fe.stmts(orig.Body.List)
 		fe.cb.End()
+		balanced = pkg.CB().InternalStack().Len() == 0 && pkg.CB().Scope() == pkg.Types.Scope() && pkg.CB().Func() == nil
 		if err := WriteTo(&out, pkg); err != nil {
 			panic(err)
 		}
 	})
+	if class == vp.NoPanic {
+		vp.Assert("C16.roundtrip.balanced", balanced)
+	}
 	vp.Assert("C17.roundtrip.nofault", class != vp.FaultPanic)
 	vp.Assert("C02.roundtrip.accepted", class == vp.NoPanic)
 	if class != vp.NoPanic {
